@@ -9,6 +9,7 @@ C28 op lines (keys, regions, versions, values are decimal numbers):
                              defines the transaction and starts the client (blocked at RPC 0)
   deliver | drop | lose | notleader | redeliver <i> | restart      (TwoPC.lean `Op`)
   check <cur> | resolve <k>,<k>,…                                   resolver steps
+  foreign <k> <fts> <ttl> <v> | foreignabort <k> <fts>              another transaction prewrites / is rolled back on a key
   get <k> <version>
   observe                    reads every key of the transaction at its commit version; the spec
                              column is the atomicity statement of C28 (all new or none new, and
@@ -53,6 +54,10 @@ def setCfg (st : St) (kv : String) : Option St :=
       let b ← boolOfString? v; pure { st with cfg := { st.cfg with perc := { st.cfg.perc with commitNoLockRejectsRollback := b } } }
     | "perc.getSkipsRollback" => do
       let b ← boolOfString? v; pure { st with cfg := { st.cfg with perc := { st.cfg.perc with readSkipsRollback := b } } }
+    | "perc.prewriteForeignLock" => if v == "locked" then some st else none     -- only this shape is modelled
+    | "perc.rollbackChecksOwner" => if v == "true" then some st else none        -- only this shape is modelled
+    | "txn.trackGet" => do
+      let b ← boolOfString? v; pure { st with rcfg := { st.rcfg with trackGet := b } }
     | "redis.detectConflicts" => do
       let b ← boolOfString? v; pure { st with rcfg := { st.rcfg with detectConflicts := b } }
     | "redis.raftConflictFromReadTs" => do
@@ -246,6 +251,21 @@ def step' (st : St) (toks : List String) : St × String :=
         | _ => "skip"
       ({ st with sys := some y' }, res ++ "\t*")
     | none => (st, "bad-op")
+  | ["foreign", k, fts, ttl, v] => withSys st fun t y =>
+    match natOf? k, natOf? fts, natOf? ttl, natOf? v with
+    | some k, some fts, some ttl, some v =>
+      if fts = t.start ∨ !(t.muts.any (fun m => m.key = k)) then (st, "skip\t*")
+      else
+        let e := (prewriteKey fts ttl ⟨k, .put, v⟩ (y.store k)).2
+        let y' := step st.cfg t y (.foreign k fts ttl v)
+        ({ st with sys := some y' }, (if e = .ok then "ok" else "err:" ++ e.str) ++ "\t*")
+    | _, _, _, _ => (st, "bad-op")
+  | ["foreignabort", k, fts] => withSys st fun t y =>
+    match natOf? k, natOf? fts with
+    | some k, some fts =>
+      if fts = t.start ∨ fts = t.cv ∨ !(t.muts.any (fun m => m.key = k)) then (st, "skip\t*")
+      else ({ st with sys := some (step st.cfg t y (.foreignAbort k fts)) }, "ok\t*")
+    | _, _ => (st, "bad-op")
   | ["get", k, v] => withSys st fun _ y =>
     match natOf? k, natOf? v with
     | some k, some v => (st, (get st.cfg.perc (y.store k) v).str ++ "\t*")
